@@ -136,6 +136,10 @@ def TEMPLATES():
         ('base.transl', 'ndarray', [L, L, L], lambda a: b.transl(np.array([a[0], a[1], a[2]]))),
         ('SE3.Eul', "[..],unit='deg'", [D, D, D], lambda a: sm.SE3.Eul([a[0], a[1], a[2]], unit='deg')),
         ('SE3.RPY', "[..],unit='deg',order='yxz'", [D, D, D], lambda a: sm.SE3.RPY([a[0], a[1], a[2]], unit='deg', order='yxz')),
+        # comparison of symbolic poses (same-class == / != return booleans without raising: C08)
+        ('op:SE3==SE3', 'X==X', [A, L], lambda a: np.array([float(sm.SE3.Rx(a[0], t=[a[1], 0, 1]) == sm.SE3.Rx(a[0], t=[a[1], 0, 1]))])),
+        ('op:SO3!=SO3', 'X!=X', [A], lambda a: np.array([float(sm.SO3.Ry(a[0]) != sm.SO3.Ry(a[0]))])),
+        ('op:SO2==SO2', 'X==X', [A], lambda a: np.array([float(sm.SO2(a[0]) == sm.SO2(a[0]))])),
         # pose objects holding several symbolic values
         ('op:SE3seq.inv', '[X,Y].inv()', [A, L, L, L, A, L, L, L], lambda a: sm.SE3([T3(a[:4]), T3(a[4:])], check=False).inv()),
         ('op:SE3seq*SE3', '[X,Y]*Z', [A, L, L, L, A, L, L, L], lambda a: sm.SE3([T3(a[:4]), T3(a[4:])], check=False) * sm.SE3.Rx(a[4], t=[a[1], 2, a[7]])),
